@@ -243,6 +243,30 @@ def exc_name(e):
     return table.get(n, 'Other:' + n)
 
 
+def game_from_buffers(mem, share=True):
+    """A Game whose five regions were built through the PUBLIC constructors (cls.from_bytes) from caller-owned
+    bytearrays, the way library users assemble carts; when `share` and two same-size regions have equal contents
+    (gff / music), both are given the SAME caller buffer. The regions must still be independent objects in
+    memory-map terms: an edit of one must not show up in another. -> (game, [gfx, map, gff, music, sfx], buffers)"""
+    from pico8.game.game import Game
+    from pico8.gfx.gfx import Gfx
+    from pico8.map.map import Map
+    from pico8.gff.gff import Gff
+    from pico8.music.music import Music
+    from pico8.sfx.sfx import Sfx
+    g = Game.make_empty_game()
+    v = g.version
+    bufs = [bytearray(unhx(h)) for h in mem]
+    if share and bufs[2] == bufs[3]:
+        bufs[3] = bufs[2]
+    g.gfx = Gfx.from_bytes(bufs[0], version=v)
+    g.map = Map.from_bytes(bufs[1], version=v, gfx=g.gfx)
+    g.gff = Gff.from_bytes(bufs[2], version=v)
+    g.music = Music.from_bytes(bufs[3], version=v)
+    g.sfx = Sfx.from_bytes(bufs[4], version=v)
+    return g, [g.gfx, g.map, g.gff, g.music, g.sfx], bufs
+
+
 class Timeout(Exception):
     pass
 
@@ -294,10 +318,23 @@ def standard_run(prop, cases, ctx):
             o = with_alarm(getattr(prop, 'CASE_TIMEOUT', 60), prop.run_impl, c)
         except Timeout:
             o = {'timeout': True}
+        except Exception as e:  # noqa: an exception the property module did not expect from the implementation
+            o = {'impl_exception': '%s: %s' % (type(e).__name__, str(e)[:200])}
         obs.append(o)
     t_impl = time.time() - t_impl
     disagreements = []
     violations = []
+    crashed = [(c, o) for c, o in zip(cases, obs) if isinstance(o, dict) and 'impl_exception' in o]
+    for c, o in crashed:
+        # the implementation raised where the harness expects it to work: a violation with the case as replay
+        violations.append({'case': c, 'summary': {'case': str(c)[:300], 'raised': o['impl_exception']},
+                           'signature': prop.ID + '/impl-exception/' + o['impl_exception'].split(':')[0] + '/' + str(c.get('kind', '') if isinstance(c, dict) else ''),
+                           'what': 'implementation raised %s on an in-domain case' % o['impl_exception'],
+                           'observed': [o['impl_exception']]})
+    if crashed:
+        keep = [(c, o) for c, o in zip(cases, obs) if not (isinstance(o, dict) and 'impl_exception' in o)]
+        cases = [c for c, _ in keep]
+        obs = [o for _, o in keep]
     # correspondence
     if ctx.get('model_exe'):
         reqs, spans = [], []
